@@ -328,6 +328,7 @@ func (fr *Frame) execInstr(in ssa.Instruction) bool {
 			binds = append(binds, fr.val(b))
 		}
 		r := e.newRef(fr.st, x.Name())
+		e.fnStatic[r] = Val{Fn: x.Fn.(*ssa.Function), Binds: binds}
 		fr.set(x, Val{S: r, Fn: x.Fn.(*ssa.Function), Binds: binds, NN: true})
 	case *ssa.MakeInterface:
 		v := fr.val(x.X)
@@ -521,6 +522,11 @@ func (fr *Frame) execUnOp(x *ssa.UnOp) {
 			if sv, ok := e.ifaceStatic[r.S]; ok {
 				r.Dyn, r.DynV = sv.Dyn, sv.DynV
 				r.NN = true
+			}
+		}
+		if _, isFn := T.Underlying().(*types.Signature); isFn {
+			if sv, ok := e.fnStatic[r.S]; ok {
+				r.Fn, r.Binds = sv.Fn, sv.Binds
 			}
 		}
 		e.assumeRefsOld(r, fr.pc, fr.st.alloc)
